@@ -70,6 +70,31 @@ def cli_part(v, tier, ev):
                 v.violation(dict(rec, clause="RecipientOpens"), dict(candidates=cand, rc=rc, stderr=se))
             if not ok and (rc == 0 or want[:64] in so):
                 v.violation(dict(rec, clause="OnlyRecipients"), dict(candidates=cand, rc=rc))
+    # a COUNT of recipients: forty (thorough: 300) keys; the first, a middle one and the last each open, a foreign key does not
+    nrec = 40 if tier == "quick" else 300
+    many = []
+    for i in range(nrec):
+        kp = os.path.join(wd, f"r{i}")
+        if run(["keygen", kp])[0]:
+            raise ToolError("mlar keygen failed")
+        many.append(kp)
+    a = os.path.join(wd, "many-recipients.mla")
+    args = ["create", "-o", a]
+    for kp in many:
+        args += ["-p", kp + ".pub"]
+    rc, so, se = run(args + ["payroll.bin"])
+    rec = dict(check="cli-confidentiality", layers=f"default, {nrec} recipients")
+    if rc:
+        v.violation(dict(rec, clause="RecipientOpens"), dict(step="create", rc=rc, stderr=se))
+    else:
+        for idx in (0, 16, nrec // 2, nrec - 2, nrec - 1):
+            rc, so, se = run(["cat", "-i", a, "-k", keys["kw"], "-k", many[idx], "payroll.bin"])
+            n += 1
+            if rc != 0 or so != files["payroll.bin"]:
+                v.violation(dict(rec, clause="RecipientOpens"), dict(recipient_index=idx, rc=rc, stderr=se))
+        rc, so, se = run(["cat", "-i", a, "-k", keys["kw"], "payroll.bin"])
+        if rc == 0:
+            v.violation(dict(rec, clause="OnlyRecipients"), dict(rc=rc))
     shutil.rmtree(wd, ignore_errors=True)
     ev["cli_observations"] = n
     log(f"[C07] mlar create with 3 recipients (default layers, encrypt, compress+encrypt): {n} archives/openings checked")
